@@ -47,6 +47,7 @@ func c02Adversarial(name string, rnd *rand.Rand, variant int, hist map[string]in
 	attacker := w.Users[5]
 	v0, v1 := w.Vals[0], w.Vals[1]
 	e0 := w.Extra[0]
+	self := ValSpec{Val: w.Extra[1].Stake, Stake: w.Extra[1].Stake} // a node staking from its own funded node key: both required signers are ONE key
 	blk := func(descr string, txs ...[]byte) {
 		d := make([]string, len(txs))
 		for i := range d {
@@ -64,12 +65,14 @@ func c02Adversarial(name string, rnd *rand.Rand, variant int, hist map[string]in
 		txDomainCreate(u1, "sale.ol", oltAmt("1002000000000000000000"), m()),
 		txDelegate(u1, oltAmt("250000000000000000000"), m()),
 		txDelegate(u2, oltAmt("70000000000000000000"), m()),
-		txStake(e0, oltAmt("500000"), m()))
+		txStake(e0, oltAmt("500000"), m()), txStake(self, oltAmt("600000"), m()))
 	blk("setup", txPropFund(u2, "adv_fund", oltAmt("5000"), m()),
 		txPropFund(u3, "adv_fund", oltAmt("700"), m()),
 		txDomainSell(u1, "sale.ol", oltAmt("5000000000000000000"), false, m()),
 		txUnstake(v1, oltAmt("1000"), m()),
 		txUnstake(e0, oltAmt("300"), m()),
+		txUnstake(e0, oltAmt("200"), m()), // a second unstake of the same delegator maturing at the same height
+		txUnstake(self, oltAmt("700"), m()),
 		txUndelegate(u1, oltAmt("1000000000000000000"), m()))
 	blk("")
 	blk("")
@@ -88,6 +91,12 @@ func c02Adversarial(name string, rnd *rand.Rand, variant int, hist map[string]in
 			func(a action.Amount, mm string) []byte { return txSendPool(u0, "DelegationPool", a, mm) }},
 		{"STAKE", []Key{v0.Stake, v0.Val}, c02E18, func(v *c02View) *big.Int { return c02Led(v, v0.Stake.Addr, c02BBal, "OLT") },
 			func(a action.Amount, mm string) []byte { return txStake(v0, a, mm) }},
+		{"STAKE_SELF", []Key{self.Stake, self.Val}, c02E18, func(v *c02View) *big.Int { return c02Led(v, self.Stake.Addr, c02BBal, "OLT") },
+			func(a action.Amount, mm string) []byte { return txStake(self, a, mm) }},
+		{"UNSTAKE_SELF", []Key{self.Stake, self.Val}, c02E18, func(v *c02View) *big.Int { return c02Led(v, self.Stake.Addr, c02BStake, "OLT") },
+			func(a action.Amount, mm string) []byte { return txUnstake(self, a, mm) }},
+		{"WITHDRAW_SELF", []Key{self.Stake, self.Val}, c02E18, func(v *c02View) *big.Int { return c02Led(v, self.Stake.Addr, c02BWithdraw, "OLT") },
+			func(a action.Amount, mm string) []byte { return txWithdraw(self, a, mm) }},
 		{"UNSTAKE", []Key{v0.Stake, v0.Val}, c02E18, func(v *c02View) *big.Int { return c02Led(v, v0.Stake.Addr, c02BStake, "OLT") },
 			func(a action.Amount, mm string) []byte { return txUnstake(v0, a, mm) }},
 		{"WITHDRAW", []Key{v1.Stake, v1.Val}, c02E18, func(v *c02View) *big.Int { return c02Led(v, v1.Stake.Addr, c02BWithdraw, "OLT") },
@@ -200,6 +209,29 @@ func c02Adversarial(name string, rnd *rand.Rand, variant int, hist map[string]in
 				descr = append(descr, fmt.Sprintf("deputy %s field %s := other, signed by that other account", k.Name, f))
 				hist["deputy:named-account-signs"]++
 			}
+		}
+		// a FOREIGN public key with junk signature bytes in slot 0 and the genuine signature(s) behind it (the count stays the
+		// number of required signers), with a chosen high fee price: whoever is charged the fee must have signed
+		for _, vic := range []Key{victim, w.Users[(ki+2)%5]} {
+			raw := basetx.RawTx
+			raw.Memo = m()
+			raw.Fee.Price = action.Amount{Currency: "OLT", Value: bigAmt("1000000000000000")}
+			good := decodeSigned(signRaw(raw, k.Signers...)).Signatures
+			junk := action.Signature{Signer: vic.Pub, Signed: []byte("junkjunkjunkjunkjunkjunkjunkjunkjunkjunkjunkjunkjunkjunkjunkjunk")}
+			stx := action.SignedTx{RawTx: raw, Signatures: append([]action.Signature{junk}, good[:len(good)-1]...)}
+			if len(good) == 1 {
+				stx.Signatures = []action.Signature{junk}
+			}
+			txs = append(txs, encodeSigned(&stx))
+			descr = append(descr, fmt.Sprintf("sigslot %s foreign public key + junk in slot 0, genuine signatures behind it, fee price 10^15", k.Name))
+			hist["sigslot:foreign-key-junk-slot0"]++
+			// and the genuine signatures in front, the junk one last
+			raw.Memo = m()
+			good = decodeSigned(signRaw(raw, k.Signers...)).Signatures
+			stx2 := action.SignedTx{RawTx: raw, Signatures: append(append([]action.Signature{}, good[:len(good)-1]...), junk)}
+			txs = append(txs, encodeSigned(&stx2))
+			descr = append(descr, fmt.Sprintf("sigslot %s genuine signatures first, foreign public key + junk in the last slot", k.Name))
+			hist["sigslot:foreign-key-junk-last"]++
 		}
 		// the unchanged payload signed by the attacker alone
 		raw := basetx.RawTx
